@@ -536,7 +536,7 @@ pub fn finish(ctx: &Ctx, mut rep: Report, fin: Finish) -> i32 {
         exit = 2;
     }
     let distinct = rep.distinct.len() as u64;
-    if exit == 0 && (rep.evaluations == 0 || distinct < 2) {
+    if exit == 0 && ctx.replay.is_none() && (rep.evaluations == 0 || distinct < 2) {
         println!(
             "INCONCLUSIVE property={} observed too little: evaluations={} distinct_nontrivial={}",
             ctx.id, rep.evaluations, distinct
